@@ -876,15 +876,8 @@ impl<'a> Gen<'a> {
     /// `in_start`: the piece lands in the text that is shown on the choice AND on the chosen
     /// line; a sequence there meets a listed known finding, so it is produced rarely
     fn choice_inline(&mut self, sc: &Scope, in_start: bool) -> Vec<Inline> {
-        let k = if in_start {
-            match self.t.pick(16) {
-                0 => 1,
-                x if x < 8 => 0,
-                _ => 7,
-            }
-        } else {
-            self.t.pick(8)
-        };
+        let _ = in_start;
+        let k = self.t.pick(8);
         match k {
             0 => {
                 let c = self.bool_expr(sc, 1);
